@@ -41,7 +41,13 @@ func (k Keeper) TrackHistoricalInfo(ctx context.Context) error {
 	// Since the entries to be deleted are always in a continuous range, we can iterate
 	// over the historical entries starting from the most recent version to be pruned
 	// and then return at the first empty entry.
-	for i := sdkCtx.BlockHeight() - int64(entryNum); i >= 0; i-- {
+	pruneHeight := sdkCtx.BlockHeight() - int64(entryNum)
+	if entryNum == 0 {
+		// nothing is recorded for the current height, so the entry of the previous
+		// block is the most recent one to prune
+		pruneHeight--
+	}
+	for i := pruneHeight; i >= 0; i-- {
 		if _, err := k.GetHistoricalInfo(ctx, i); err != nil && errors.Is(err, collections.ErrNotFound) {
 			break
 		} else if err != nil {
